@@ -928,6 +928,53 @@ example : (erun EngCfg.code 2 [.poolRet 0 (.fail .provider (.err 1)), .send 0, .
     (erun EngCfg.code 2 [.poolRet 0 (.fail .provider (.err 1)), .send 0, .recv]).pools[1]? = some .running := by decide
 end Sys2
 
+/-! ### round 6: the instance level composed with the pool level -/
+section InstPool
+open Pandora.Model.C05.Inst
+
+/-- COMPOSITION instance → pool (the open point of round 4): the instance level says WHEN the loop of `instance.Run`
+ends with an error - only through the panic of a shot (every list of passes, any schedule, any cancel) -, the pool
+level says what that does to the run: once an instance that runs with its gun (`live[i] = ⟨id, some g⟩`) returns that
+error, `Pool.Run` never returns success unless the caller cancelled, whatever happened before and happens afterwards -/
+theorem C05_instance_panic_fails_pool (cfg : Cfg) (hfix : cfg.fixSelect = true) (pre post : List Choice)
+    (discard : Bool) (st st' : St) (ps : List Pass) (e : ErrId) (i id : Nat) (g : Gun)
+    (hloop : loop discard st ps = (st', some (.err e)))
+    (hlive : (run cfg pre).live[i]? = some ⟨id, some g⟩) :
+    (∃ p ∈ ps, p.panics = some e) ∧
+    (let s := run cfg (pre ++ .instRet i (.err e) :: post)
+     s.extC = false → s.result ≠ some .ok) := by
+  refine ⟨C05_instance_err_only_if_panic discard st st' ps e hloop, ?_⟩
+  intro s hext hres
+  have h1 : (step cfg (run cfg pre) (.instRet i (.err e))).compErrs ≠ [] := by
+    simp only [step, hlive]
+    rw [if_neg (by simp)]
+    rw [ce_sendRes]
+    simp only [addErr]
+    intro hh
+    exact absurd (List.append_eq_nil_iff.1 hh).2 (by simp)
+  have h2 : s.compErrs ≠ [] := by
+    show (run cfg (pre ++ .instRet i (.err e) :: post)).compErrs ≠ []
+    unfold run
+    rw [List.foldl_append, List.foldl_cons]
+    exact compErrs_run cfg post _ h1
+  have hm : s.main = .returned .ok := by
+    simp only [State.result] at hres
+    split at hres
+    · rename_i r hm; cases hres; exact hm
+    · cases hres
+  rcases C05_error_pending_or_failed cfg hfix _ hext h2 with h | ⟨h, _⟩
+  · rw [hm] at h; cases h
+  · rw [hm] at h; cases h
+
+-- non-vacuity: the second shot of an instance panics; in the pool that instance is live with its gun
+example : loop false { left := 5 } [{}, { panics := some 7 }, {}] =
+    ({ left := 3, acq := 2, rel := 2, taken := 2, shots := 2 }, some (.err 7)) := by decide
+example : (run Cfg.repaired [.warm (.ok true), .sched none, .startFirst (.ok true)]).live[0]? =
+    some ⟨0, some ⟨true, 0⟩⟩ := by decide
+example : (run Cfg.repaired ([.warm (.ok true), .sched none, .startFirst (.ok true)] ++ .instRet 0 (.err 7) ::
+    [.awaitRun, .errDeliver])).result = some (.fail (.instance 0) (.err 7)) := by decide
+end InstPool
+
 /-! ### round 6: the ammo provider behind `Choice.provRet` (`Model/C05Prov.lean`), and its composition with the pool -/
 section Provider
 open Pandora.Model.C05.Prov
@@ -997,15 +1044,18 @@ theorem C05_provider_broken_source_fails (s : Src) (ctxAt : Option Nat) (j : Nat
 /-- whenever a provider's `Run` returns - failing to open its source included - the ammo queue is closed, and `Acquire`
 on a closed queue never blocks: an instance parked in `Acquire` (which knows no context) is always let go.  The order
 "deferred close first, then everything that can fail" is regenerated: `Bridge.C05Prov.decodeRun_closes_queue`,
-`grpcRun_closes_sink`, `acquire_is_receive` -/
+`grpcRun_closes_sink`, `httpRun_closes_sink` (the http provider: regenerated order only, its `Run` is not modelled),
+`acquire_is_receive` -/
 theorem C05_provider_return_releases_acquirers :
     (∀ s ctxAt ds o, decodeRun s ctxAt ds = some o → o.queueClosed = true) ∧
     (∀ openOk start sent, (grpcRun openOk start sent).queueClosed = true ∧
       (openOk = false → (grpcRun openOk start sent).res = .openFailed)) ∧
     (∀ q, (acquire q true).isSome = true) ∧
     Pandora.Gen.C05Prov.srcDecodeRun.all (Pandora.Bridge.C05Prov.closesFirst "OutQueue") = true ∧
-    Pandora.Gen.C05Prov.srcGrpcRun.all (Pandora.Bridge.C05Prov.closesFirst "Sink") = true := by
-  refine ⟨?_, ?_, ?_, Pandora.Bridge.C05Prov.decodeRun_closes_queue.1, Pandora.Bridge.C05Prov.grpcRun_closes_sink.1⟩
+    Pandora.Gen.C05Prov.srcGrpcRun.all (Pandora.Bridge.C05Prov.closesFirst "Sink") = true ∧
+    Pandora.Gen.C05Prov.srcHttpRun.all (Pandora.Bridge.C05Prov.closesFirst "Sink") = true := by
+  refine ⟨?_, ?_, ?_, Pandora.Bridge.C05Prov.decodeRun_closes_queue.1, Pandora.Bridge.C05Prov.grpcRun_closes_sink.1,
+    Pandora.Bridge.C05Prov.httpRun_closes_sink.1⟩
   · intro s ctxAt ds o h
     unfold decodeRun at h
     split at h
